@@ -587,6 +587,51 @@ class World:
             return all(self._stored[h] for h in self.occ(s))
         return None
 
+    # ---- canonical structure of a derived expression, for the consumer-hash oracle
+    def canon_spec(self, s):
+        """A hashable term such that, INSIDE the fragment it covers, two specs denote the same jug expression
+        iff their terms are equal: tasks, constant indices that are int (not bool) / str / None / slices of
+        those, task- and tasklet-valued indices, iteratetask (= base[i]), return_tuple / partial(_get_check),
+        Tasklet(base, wrap), identity (= its argument), CustomHash of one of these, mapped sequences, their
+        slices (by the range they carry) and elements (= block[j]).  None = outside the fragment (NoHash hashes
+        alike by design; containers, floats, subclass instances are the business of C07/C08)."""
+        def const(v):
+            ok = lambda x: x is None or (type(x) == int) or type(x) == str
+            if ok(v):
+                return ('const', repr(v))
+            if type(v) == slice and all(x is None or type(x) == int for x in (v.start, v.stop, v.step)):
+                return ('const', repr(v))
+            return None
+        tag = s[0]
+        if tag == 'task':
+            return ('task', s[1])
+        if tag == 'identity':
+            # identity(x) is x for a task or tasklet only (for anything else it is a new task)
+            return self.canon_spec(s[1]) if s[1][0] in ('task', 'getitem', 'iteratetask', 'fun', 'return_tuple', 'mapelem', 'identity') else None
+        if tag == 'getitem':
+            b = self.canon_spec(s[1])
+            i = const(s[2][1]) if s[2][0] == 'val' else self.canon_spec(s[2])
+            return None if b is None or i is None else ('getitem', b, i)
+        if tag == 'iteratetask':
+            b = self.canon_spec(s[1])
+            return None if b is None else ('getitem', b, ('const', repr(s[3])))
+        if tag == 'fun' or tag == 'return_tuple':
+            b = self.canon_spec(s[1])
+            f = s[2] if tag == 'fun' else ('getcheck', s[3], s[2])
+            return None if b is None else ('fun', b, f)
+        if tag == 'custom':
+            b = self.canon_spec(s[1])
+            return None if b is None else ('custom', b)
+        if tag == 'mapseq':
+            return ('mapseq', s[1])
+        if tag == 'mapslice':
+            return ('mapslice', s[1], self._range(s[1], s[2]))
+        if tag == 'mapelem':
+            m, xs, bs, blocks, stored = self.maps[s[1]]
+            p = self._positions(s[1], s[2])[s[3]]
+            return ('getitem', ('block', s[1], p // bs), ('const', repr(p % bs)))
+        return None
+
     # ---- spec -> real jug object
     def realise(self, s):
         tag = s[0]
@@ -855,3 +900,22 @@ G.build_program(G.read_spec(%r), G.read_spec(%r), %r)
 def write_jugfile(path, desc, spec, how='pos'):
     with open(path, 'w') as fh:
         fh.write(JUGFILE % (pyrepr(desc), pyrepr(spec), how))
+
+
+def build_group(desc, specs, how='pos'):
+    """Called from a generated jugfile: one consumer (same function, same way of receiving) per derived object."""
+    w = World(None, desc=desc, store=Task.store, dump=False)
+    cs = [consumer_task(w.realise(sp), how) for sp in specs]
+    LAST.clear()
+    LAST.update(world=w, consumers=cs)
+    return cs
+
+
+JUGFILE_GROUP = '''import harness.depsgen as G
+G.build_group(G.read_spec(%r), G.read_spec(%r), %r)
+'''
+
+
+def write_jugfile_group(path, desc, specs, how='pos'):
+    with open(path, 'w') as fh:
+        fh.write(JUGFILE_GROUP % (pyrepr(desc), pyrepr(list(specs)), how))
